@@ -262,7 +262,7 @@ REGISTRY = {
         "assumptions": QUERY_ASSUMPTIONS,
     },
     "C05": {
-        "lean_modules": ["C05"],
+        "lean_modules": ["C05", "C05Whole"],
         "run": mk_query_runner(c05_opts, 500, 10000, data=False, stats=True),
         "rule": "importer-loaded datasets x Stats requests (1-8 counters/aggregates, runs of counters sharing leading terms so that the grouping optimiser fires, nested StatsAnd/StatsOr/StatsNegate, group-by Columns, AuthUser), rows spread over 1-4 backends, both parse modes; "
                 "non-trivial = at least two Stats lines and at least one non-zero value in the specification's answer; distinct by hash of (dataset, request, parse mode)",
@@ -301,7 +301,7 @@ REGISTRY = {
         "assumptions": QUERY_ASSUMPTIONS,
     },
     "C10": {
-        "lean_modules": ["C10"],
+        "lean_modules": ["C10", "C10Body"],
         "run": c10.run,
         "rule": "importer-loaded datasets whose strings contain quotes, backslashes, control bytes, U+2028, emoji, 3000 byte values, custom variables with missing values x data and Stats requests "
                 "(unknown/duplicate columns, no Columns header, ColumnHeaders, both formats, fixed16 on/off): the bytes of Response.send are parsed with a strict JSON parser, shape- and width-checked, the header compared with Lmd.fixed16Header; "
@@ -426,7 +426,7 @@ REGISTRY = {
         "assumptions": ["memory-safety faults, deadlocks and unbounded waits can only be exhibited, not excluded, by this check (partial: see DESIGN.md)"],
     },
     "C04": {
-        "lean_modules": ["C04"],
+        "lean_modules": ["C04", "C04Union"],
         "run": mk_query_runner(c04_opts, 500, 8000),
         "rule": "1-5 importer-loaded backends with any subset put into down/pending/broken/warning state x Backends headers (subset, unknown ids, duplicates, empty) x tables x json/wrapped_json",
         "correspondence": "Lmd.selectBackends / backendAvailable / dataQuery vs ExpandRequestedBackends / prepareResponse / NewResponse",
